@@ -39,8 +39,7 @@ func TestF3LoneRemovalIsForwarded(t *testing.T) {
 	}
 }
 
-// F3 (environment): observation only - adjustEnv is not under contract, no check reports
-// this, and it is not repaired.
+// F3-env: failed before the fix commit f408ce1, passes with it.
 func TestF3EnvLoneRemovalIsForwarded(t *testing.T) {
 	r := f3Result()
 	if err := r.adjustEnv([]*KeyValue{{Key: api.MarkForRemoval("FOO")}}, "A"); err != nil {
